@@ -41,8 +41,8 @@ type Task struct {
 	// Group names the simulated process instance this task belongs to (inherited
 	// by the tasks it spawns); a frozen group is never scheduled again (crash).
 	Group string
-	Panic   any
-	Stack   string
+	Panic any
+	Stack string
 }
 
 // PanicInfo records a panic that ended a task.
@@ -360,7 +360,20 @@ func (s *Sched) childLabel(parent *Task, site string) string {
 	}
 	n := parent.kids[site]
 	parent.kids[site] = n + 1
-	return parent.Label + "/" + site + "#" + strconv.Itoa(n)
+	base := parent.Label
+	if len(base) > 200 {
+		// goroutine chains (a re-dial loop spawns each attempt from the previous
+		// one) would make labels grow without bound: keep the node prefix and the
+		// tail, replace the middle by a hash of the whole
+		h := fnv.New64a()
+		h.Write([]byte(base))
+		node := ""
+		if i := strings.IndexByte(base, ':'); i >= 0 && i < 40 {
+			node = base[:i+1]
+		}
+		base = node + "..." + strconv.FormatUint(h.Sum64(), 16) + base[len(base)-80:]
+	}
+	return base + "/" + site + "#" + strconv.Itoa(n)
 }
 
 // Go starts f as a new task; called by instrumented code for every go
